@@ -180,6 +180,16 @@ func runC07(c *core.Ctx, r *core.Result) {
 					e := t.Build()
 					e0 := plainT.Build()
 					hObj := H.Build()
+					if cur.kind == "barrier" || cur.kind == "barrier-newmsg" {
+						// the barrier keeps its text whatever happens first: a twin that
+						// is transferred before any of its methods is called arrives
+						// with the text the local one shows
+						cold, _ := tm.HopK(t.Build())
+						if a, b := errText(cold), errText(e); a != b {
+							return fail("cold-transfer-text:"+cur.kind, "a barrier transferred before any other use arrives with text %q, the same error used locally says %q", a, b)
+						}
+					}
+					first := useOnce(e)
 					if cur.kind == "barrier-newmsg" {
 						// the message given to the constructor replaces the text, verbatim
 						if got, want := errText(e), t.Model().Text; got != want {
@@ -250,7 +260,12 @@ func runC07(c *core.Ctx, r *core.Result) {
 						if st.name == "local" {
 							H.EachSlot(func(k int, o *tm.Term, i int) {})
 						}
+						// (a multi-line text is shown in pieces, entry by entry: the
+						// token clause below covers it)
 						for _, ln := range strings.Split(hObj.Error(), "\n") {
+							if strings.Contains(hObj.Error(), "\n") {
+								break
+							}
 							if ln != "" && !strings.Contains(plain, ln) {
 								return fail("invisible:"+cur.kind+":"+st.name, "the hidden error's text %q is not shown by %%+v at stage %s", ln, st.name)
 							}
@@ -272,6 +287,11 @@ func runC07(c *core.Ctx, r *core.Result) {
 							}
 						}
 					}
+					// looking at the hidden payload does not consume it: the same
+					// uses of the same object give the same results again
+					if again := useOnce(e); again != first {
+						return fail("use-changes-hidden:"+cur.kind, "rendering, collecting safe details, reporting and encoding the same error a second time gives a different result: %s", short(tm.FirstDiffStr(first, again)))
+					}
 					return ""
 				})
 			})
@@ -287,6 +307,18 @@ func runC07(c *core.Ctx, r *core.Result) {
 			r.Sample(map[string]interface{}{"term": t.String(), "hidden_positions": len(hps)})
 		}
 	})
+}
+
+// useOnce renders, collects the safe details of, reports and encodes e.
+func useOnce(e error) string {
+	var b strings.Builder
+	fmt.Fprintf(&b, "%+v\n--\n", errors.Formattable(e))
+	for _, p := range errors.GetAllSafeDetails(e) {
+		fmt.Fprintf(&b, "%s %q\n", p.OriginalTypeName, p.SafeDetails)
+	}
+	ev, _ := errors.BuildSentryReport(e)
+	fmt.Fprintf(&b, "--\n%s\n--\n%x", ev.Message, tm.Encode(e))
+	return b.String()
 }
 
 // stripOuter drops nothing today: the accessor vector of Mark(e, r) has
